@@ -814,6 +814,80 @@ def c08_8(ck, prog):
         raise AnalysisBroken('only %d mechanism-restriction call sites found' % n)
 
 
+def c08_9(ck, prog):
+    r = ck.rule('C08.9', 'cookie freshness (DBUS_COOKIE_SHA1): when the keyring is loaded a cookie is dropped '
+                'exactly when its timestamp is negative, more than MAX_TIME_TRAVEL_SECONDS in the future or more '
+                'than EXPIRE_KEYS_TIMEOUT_SECONDS old; only a cookie younger than NEW_KEY_TIMEOUT_SECONDS is offered '
+                'in a challenge', 'DEC',
+                breaks='a stale or future-dated cookie stays valid indefinitely: the server keeps challenging with '
+                       'it and accepts responses computed from it', floor=10)
+    K = 'dbus/dbus-keyring.c'
+    fn = prog.fn('_dbus_keyring_reload', K)
+    travel, expire, newk = 300, 420, 300
+    # the filter is an `a || b || c` chain: the blocks whose TRUE edge enters the drop branch
+    drop = None
+    for blk in fn.blocks.values():
+        t = blk.get('term')
+        if t and t.get('cond') is not None and t.get('kind') == 'IfStmt':
+            names = {x.get('name') for x in walk(t['cond']) if is_ref(x)}
+            if {'timestamp', 'now'} <= names:
+                drop = blk['succs'][0]
+    if drop is None:
+        raise AnalysisBroken('_dbus_keyring_reload: the timestamp filter was not found')
+    chain = [blk['term']['cond'] for blk in fn.blocks.values()
+             if blk.get('term') and blk['term'].get('cond') is not None and blk['succs'] and blk['succs'][0] == drop
+             and any(is_ref(x, 'timestamp') for x in walk(blk['term']['cond']))]
+    cond = chain[0]
+    for c in chain[1:]:
+        cond = {'k': 'bin', 'op': '||', 'l': cond, 'r': c}
+    now = 1000000
+    for d in (-now - 1, -expire - 1, -expire, -expire + 1, -1, 0, 1, travel - 1, travel, travel + 1, 86400 * 365):
+        ts = now + d
+
+        def val(e, ts=ts):
+            if is_ref(e, 'timestamp'):
+                return ts
+            if is_ref(e, 'now'):
+                return now
+            return None
+        got = lib.eval_expr(cond, val)
+        want = int(ts < 0 or d > travel or d < -expire)
+        key = 'reload:timestamp=now%+d' % d
+        if got is None:
+            raise AnalysisBroken('_dbus_keyring_reload: cannot evaluate the timestamp filter %s' % estr(cond)[:120])
+        if got == want:
+            r.ok(key, {'dropped': bool(got)})
+        else:
+            r.violation(key, fn.name, K, fn.line,
+                        'a cookie with timestamp now%+d s is %s; the rule is: drop iff negative, more than %d s in '
+                        'the future or more than %d s old' % (d, 'dropped' if got else 'kept', travel, expire))
+    fr = prog.fn('find_recent_key', K)
+    c2 = None
+    for blk in fr.blocks.values():
+        t = blk.get('term')
+        if t and t.get('cond') is not None and any(is_member(x, 'creation_time') for x in walk(t['cond'])):
+            c2 = t['cond']
+    if c2 is None:
+        raise AnalysisBroken('find_recent_key: the age test was not found')
+    for age in (0, newk - 1, newk, newk + 1, 100000):
+        def val2(e, age=age):
+            if is_member(e, 'creation_time'):
+                return now - age
+            if is_ref(e, 'tv_sec'):
+                return now
+            return None
+        got = lib.eval_expr(c2, val2)
+        want = int(age < newk)
+        key = 'find_recent_key:age=%d' % age
+        if got is None:
+            raise AnalysisBroken('find_recent_key: cannot evaluate %s' % estr(c2)[:100])
+        if got == want:
+            r.ok(key)
+        else:
+            r.violation(key, fr.name, K, fr.line, 'a cookie aged %d s is %s for new challenges (limit %d s)' % (
+                age, 'offered' if got else 'not offered', newk))
+
+
 def run(ck):
     ck.explanation = (
         'Static rules over dbus/dbus-auth.c, dbus/dbus-transport.c, dbus/dbus-transport-socket.c: the server\'s '
@@ -837,3 +911,4 @@ def run(ck):
         c08_6(ck, prog)
         c08_7(ck, prog)
         c08_8(ck, prog)
+        c08_9(ck, prog)
